@@ -1,8 +1,8 @@
 (* Decoding of C07 cases and the verdict.
 
-   kind 0701: input = (view prior (unchanged-path ...) (merge differ) script capacity progress [transport])
+   kind 0701: input = (view prior (unchanged-path ...) (merge differ) script capacity progress [transport [rejects [holds]]])
               (transport = how the harness moves the packets, harness/c0607_transport.go; the verdict does not depend on it)
-              impl  = (trace hang (taken ((path content) ...)) (taken ((path content) ...)) late)
+              impl  = (trace hang (taken ((path content) ...)) (taken ((path content) ...)) late (sendoverlaps recvoverlaps))
    trace = events at the boundary of the real fsutil.Receive call; first listing = regular
    files of the destination when the reference sender received FIN, second = after return.
 
@@ -49,6 +49,24 @@ Definition announce_ok (entries : list entry) : bool :=
   | None => links_ok [] entries
   | Some _ => false
   end.
+
+(* ReceiveOpt.Filter of the case: it answers false for the listed paths and everything below
+   them.  A rejected entry is announced like any other (it keeps its position = id in the STAT
+   sequence) but the disk writer drops its change: it is not needed, whatever the diff says. *)
+Definition rejected (rejects : list bytes) (p : bytes) : bool :=
+  existsb (fun q => bytes_eqb p q || has_prefix (q ++ [47]) p) rejects.
+Definition dec_rejects (opts : list sx) : option (list bytes) :=
+  match opts with
+  | _ :: rj :: _ => sx_list sx_B rj
+  | _ => Some []
+  end.
+(* a filter the transfer can succeed with: the target of a hard link that is kept is kept too
+   (os.Link to a file that was never created fails in the disk writer, legitimately) *)
+Definition rejects_ok (rejects : list bytes) (entries : list entry) : bool :=
+  forallb (fun e : entry =>
+    let st := fst e in
+    st_is_dir st || mode_is_symlink (st_mode st) || is_nil (st_linkname st)
+    || rejected rejects (st_path st) || negb (rejected rejects (st_linkname st))) entries.
 
 (* sanity of the reference sender: the STATs it sent are the announced entries in order *)
 Definition c_stats_in (entries : list entry) (tr : list event) : bool :=
@@ -171,12 +189,13 @@ Definition stored_agrees (entries : list entry) (disk : list (bytes * bytes)) (s
 
 Definition run_0701 (input impl : sx) : sx :=
   match input, impl with
-  | SL (v :: _ :: unch :: SL [mg; SN differ] :: _ :: _ :: _ :: _), SL [t; SN hang; l1; l2; _] =>
-    match dec_view v, sx_list sx_B unch, sx_bool mg, sx_list dec_event t, dec_listing l1, dec_listing l2 with
-    | Some view, Some unchanged, Some merge, Some tr, Some atfin, Some atend =>
+  | SL (v :: _ :: unch :: SL [mg; SN differ] :: _ :: _ :: _ :: opts), SL (t :: SN hang :: l1 :: l2 :: _ :: ov :: _) =>
+    match dec_view v, sx_list sx_B unch, sx_bool mg, sx_list dec_event t, dec_listing l1, dec_listing l2, dec_rejects opts with
+    | Some view, Some unchanged, Some merge, Some tr, Some atfin, Some atend, Some rejects =>
       let entries := walk_root view in
-      if negb (announce_ok entries) then v_malformed else
-      let needs := fun p : bytes => merge || N.eqb differ 1 || negb (mem_bytes p unchanged) in
+      if negb (announce_ok entries && rejects_ok rejects entries) then v_malformed else
+      let needs := fun p : bytes =>
+        negb (rejected rejects p) && (merge || N.eqb differ 1 || negb (mem_bytes p unchanged)) in
       let rej := first_reject (receiver_acc needs) rinit tr 0 in
       let cl := clauses7 needs entries atfin atend tr in
       let final := receiver_run needs tr in
@@ -188,11 +207,11 @@ Definition run_0701 (input impl : sx) : sx :=
                                 end
                     | None => false
                     end in
-      let holds := accepted && forallb (fun b => b) cl && N.eqb hang 0 in
+      let holds := accepted && forallb (fun b => b) cl && N.eqb hang 0 && exclusive_calls ov in
       let model := if accepted && agrees then impl
                    else SL [SB [114; 101; 106]; of_optN rej; of_bool agrees] in
-      verdict model impl holds (SL [of_optN rej; SL (map of_bool cl); SN hang])
-    | _, _, _, _, _, _ => v_malformed
+      verdict model impl holds (SL [of_optN rej; SL (map of_bool cl); SN hang; ov])
+    | _, _, _, _, _, _, _ => v_malformed
     end
   | _, _ => v_malformed
   end.
